@@ -139,6 +139,30 @@ pub fn check_kind(t: &Trace<'_>, m: &Model, out: &mut CaseOut, prop: &'static st
             }
         }
     }
+    // (c''') the broker's view: a QoS 1 PUBLISH that went out whole has certainly been taken,
+    // whatever the call that wrote it returned; unless its PUBACK was consumed, the next
+    // connection - if it resumes the session, fits the packet and goes idle - carries it again
+    if kind == "publish1" {
+        for (k, c) in w.conns.iter().enumerate() {
+            let Some(next) = t.conns.iter().find(|n| n.idx > k && n.established) else { continue };
+            if !next.connack.as_ref().is_some_and(|x| x.0) {
+                continue;
+            }
+            let Some(e_d) = drained_at(t, next.idx) else { continue };
+            for p in c.out.packets.iter() {
+                let CPacket::Publish { qos: 1, pid: Some(pid), dup: false, .. } = &p.pkt else { continue };
+                let acked = w.events.iter().skip(p.ev).any(|e| matches!(e, crate::world::Ev::Consumed { conn, idx } if *conn <= next.idx && matches!(&w.conns[*conn].in_pkts[*idx].pkt, Some(crate::refcodec::SPacket::PubAck { pid: q, .. }) if *q == *pid)));
+                if acked || next.mps.is_some_and(|m| p.end - p.start > m as usize) {
+                    continue;
+                }
+                out.count("whole_publishes_followed_to_the_next_connection", 1);
+                let again = w.conns[next.idx].out.packets.iter().any(|q| q.ev <= e_d && matches!(&q.pkt, CPacket::Publish { qos: 1, pid: Some(x), .. } if x == pid));
+                if !again {
+                    out.violations.push(viol(prop, format!("{}/not-replayed/publish1/packet-the-broker-has-seen", prop), format!("conn {}: QoS 1 PUBLISH id {} went out whole and no PUBACK for it was consumed; resumed conn {} went idle without carrying it again", k, pid, next.idx)));
+                }
+            }
+        }
+    }
     // (e) order of PUBLISH packets on every connection = acceptance order
     if kind == "publish1" {
         for c in &w.conns {
